@@ -231,6 +231,7 @@ def substitute_terminals(tree, **params):
                         = {}
                 else:
                     del substitute_terminals.terminals
+                    del substitute_terminals.fn
                     raise ValueError("in tree %d, double index %d" %
                                      (int(line[0]), int(line[1])))
                 # throw away stuff after fourth space
@@ -295,6 +296,7 @@ def insert_terminals(tree, **params):
                     insert_terminals.terminals[int(line[0])][int(line[1])] = {}
                 else:
                     del insert_terminals.terminals
+                    del insert_terminals.fn
                     raise ValueError("in tree %d, double index %d" %
                                      (int(line[0]), int(line[1])))
                 # throw away stuff after fourth space
